@@ -91,7 +91,63 @@ def gen_case(rng):
     return s, d, c, r
 
 
+def gen_multi(rng):
+    """a file with two or three ~A sections of different heights and widths (narrower / wider than the curve list, first or
+    last): every data section is read in turn and bound to the curve list as it stands, so after the read all curves have the
+    row count of the LAST section, its columns bound in order, every other curve (declared, or created for a surplus column
+    of an earlier section) NaN.  Cells carry (section, row, column).  -> (spec with rows = last section, d, c_last, r_last, n)"""
+    s = lasgen.Spec()
+    s.version = rng.choice(["1.2", "2.0"])
+    d = rng.choice([0, 1, 2, 3, 4, 4, 6])
+    k = rng.choice([2, 2, 3])
+    heights = rng.sample([1, 2, 3, 5, 8], k)                       # pairwise different
+    if rng.random() < 0.15:
+        heights[-1] = heights[0]                                   # (sometimes equal: the plain case)
+    widths = [max(1, d + rng.choice([-3, -2, -1, 0, 0, 1, 2])) for _ in range(k)]
+    shape = rng.choice(["any", "last_narrow", "first_narrow", "last_wide", "first_wide"])
+    if shape == "last_narrow" and d >= 2:
+        widths[-1] = rng.randint(1, d - 1)
+        widths[0] = max(widths[0], d)
+    elif shape == "first_narrow" and d >= 2:
+        widths[0] = rng.randint(1, d - 1)
+    elif shape == "last_wide":
+        widths[-1] = d + rng.choice([1, 2])
+    elif shape == "first_wide":
+        widths[0] = d + rng.choice([1, 2, 3])
+    mixed = rng.random() < 0.3
+    s.curves = [(("Cv%d" if mixed else "C%d") % j if j else ("Dept" if mixed else "DEPT"), rng.choice(["M", "", "OHMM"]), "", "curve %d" % j)
+                for j in range(d)]
+    s.null = "-999.25"
+    s.wrap = rng.choice(["NO", "NO", "NO", None])
+    s._sections = [[[str(1000 * (q + 1) + 100 * (i + 1) + j) + rng.choice(["", ".0", ".5"]) for j in range(widths[q])]
+                    for i in range(heights[q])] for q in range(k)]
+    s._titles = [rng.choice(["~A", "~ASCII", "~Ascii log data", "~A  DEPT  C1"]) for _ in range(k)]
+    s.rows = s._sections[-1]
+    s._case = rng.choice(["preserve", "preserve", "upper", "lower"])
+    s._wrap_k = None
+    s.eol = "\n"
+    return s, d, widths[-1], heights[-1], max([d] + widths)
+
+
+def render_multi(s):
+    rows = s.rows
+    try:
+        s.rows = []
+        text, _ = lasgen.render(s)
+    finally:
+        s.rows = rows
+    lines = text.split("\n")
+    assert lines[-1] == "" and lines[-2].startswith("~A"), lines[-3:]
+    lines = lines[:-2]
+    for title, sec in zip(s._titles, s._sections):
+        lines.append(title)
+        lines += [" " + "  ".join(row) for row in sec]
+    return "\n".join(lines) + "\n"
+
+
 def render(s):
+    if getattr(s, "_sections", None):
+        return render_multi(s)
     if s._wrap_k is None:
         return lasgen.render(s)[0]
     k = s._wrap_k
@@ -117,15 +173,15 @@ def is_number(t):
         return False
 
 
-def oracle(s, d, c, r, text, engine, case="preserve"):
+def oracle(s, d, c, r, text, engine, case="preserve", ncurves=None):
     import lasio
     try:
         las = lasio.read(text, engine=engine, mnemonic_case=case)
     except Exception as e:
         return "read raised %s: %s" % (type(e).__name__, str(e)[-100:])
-    n = max(d, c)
+    n = max(d, c) if ncurves is None else ncurves        # several ~A sections: c, r, s.rows are the LAST section's, n counts every column seen
     if len(las.curves) != n:
-        return "%d curves, expected max(d=%d, c=%d)" % (len(las.curves), d, c)
+        return "%d curves, expected %d (d=%d, c=%d)" % (len(las.curves), n, d, c)
     import numpy as np
     shapes = [np.shape(cv.data) for cv in las.curves]
     if any(x != (r,) for x in shapes):
@@ -167,17 +223,28 @@ def run(ctx):
     n = 6000 if ctx.thorough else 500
     cases, meta, shapes = [], [], set()
     hist = {"wrapped": 0, "c_lt_d": 0, "c_eq_d": 0, "c_gt_d": 0, "one_row": 0, "d_zero": 0, "blank_or_dup_mnemonic": 0}
-    for _ in range(n):
-        s, d, c, r = gen_case(rng)
+    stream = [gen_case(rng) + (None,) for _ in range(n)] + [gen_multi(rng) for _ in range(n // 4)]
+    for s, d, c, r, ncur in stream:
         text = render(s)
         for e in ("numpy", "normal"):
-            bad = oracle(s, d, c, r, text, e, s._case)
+            bad = oracle(s, d, c, r, text, e, s._case, ncur)
             if bad:
                 res.oracle_violations.append({"payload": {"text": text, "engine": e, "d": d, "c": c, "r": r, "case": s._case,
-                                                          "curves": s.curves, "rows": s.rows}, "what": bad})
+                                                          "curves": s.curves, "rows": s.rows, "n": ncur}, "what": bad})
             exp, las = rm.impl_read(text, engine=e, mnemonic_case=s._case)
             cases.append(rm.coq_case(text, exp, engine=e, mnemonic_case=s._case))
             meta.append((text, e))
+        secs = getattr(s, "_sections", None)
+        if secs:
+            ws, hs = [len(q[0]) for q in secs], [len(q) for q in secs]
+            hist["several_data_sections"] = hist.get("several_data_sections", 0) + 1
+            hist["three_data_sections"] = hist.get("three_data_sections", 0) + (len(secs) == 3)
+            hist["last_section_narrower_than_curves"] = hist.get("last_section_narrower_than_curves", 0) + (ws[-1] < ncur)
+            hist["last_narrower_and_heights_differ"] = hist.get("last_narrower_and_heights_differ", 0) + (ws[-1] < ncur and hs[0] != hs[-1])
+            hist["last_section_wider_than_declared"] = hist.get("last_section_wider_than_declared", 0) + (ws[-1] > d)
+            hist["earlier_section_wider_than_last"] = hist.get("earlier_section_wider_than_last", 0) + (max(ws[:-1]) > ws[-1])
+            shapes.add(("multi", d, tuple(ws), tuple(min(h, 3) for h in hs)))
+            continue
         flat = [t for row in s.rows for t in row]
         hist["dlm_comma"] = hist.get("dlm_comma", 0) + (s.dlm == "COMMA")
         hist["empty_comma_field"] = hist.get("empty_comma_field", 0) + (s.dlm == "COMMA" and "" in flat)
@@ -205,8 +272,10 @@ def run(ctx):
     res.rule = ("files with d declared curves (0..7, blank/duplicate mnemonics included), c data columns (c <, =, > d), r rows "
                 "(1,2,3,22), cells 100(i+1)+j carrying their coordinates (plain, negative, signed, exponent spellings; a text column; "
                 "DLM COMMA with empty fields), unwrapped and WRAP=YES (steps re-wrapped at 1..c tokens per line), both engines, "
-                "mnemonic_case preserve/upper/lower with mixed-case mnemonics; non-trivial = distinct (d, c, min(r,3), wrap, tokens per "
-                "line)")
+                "mnemonic_case preserve/upper/lower with mixed-case mnemonics; plus files with two or three ~A sections of different "
+                "heights and widths (narrower / wider than the curve list, first or last; cells carry section, row, column): all curves "
+                "have the LAST section's row count, its columns bound in order, the rest NaN; non-trivial = distinct (d, c, min(r,3), "
+                "wrap, tokens per line) resp. (d, widths, heights capped at 3)")
     res.samples = [meta[0][0][-250:], meta[-1][0][-250:]]
     res.histogram = hist
     return res
@@ -216,19 +285,21 @@ def replay(payload):
     s = lasgen.Spec()
     s.curves = [tuple(x) for x in payload["curves"]]
     s.rows = payload["rows"]
-    bad = oracle(s, payload["d"], payload["c"], payload["r"], payload["text"], payload["engine"], payload.get("case", "preserve"))
+    bad = oracle(s, payload["d"], payload["c"], payload["r"], payload["text"], payload["engine"], payload.get("case", "preserve"),
+                 payload.get("n"))
     return bad is not None, bad or "ok"
 
 
 def search(ctx, res):
     import random
     rng = random.Random(ctx.seed + 9)
-    for _ in range(30000):
-        s, d, c, r = gen_case(rng)
+    for it in range(30000):
+        s, d, c, r, ncur = gen_multi(rng) if it % 4 == 3 else gen_case(rng) + (None,)
         text = render(s)
         for e in ("numpy", "normal"):
-            bad = oracle(s, d, c, r, text, e, s._case)
+            bad = oracle(s, d, c, r, text, e, s._case, ncur)
             if bad:
-                yield {"payload": {"text": text, "engine": e, "d": d, "c": c, "r": r, "case": s._case, "curves": s.curves, "rows": s.rows},
+                yield {"payload": {"text": text, "engine": e, "d": d, "c": c, "r": r, "case": s._case, "curves": s.curves, "rows": s.rows,
+                                   "n": ncur},
                        "what": bad}
                 return
